@@ -27,6 +27,7 @@ Pending the shared store model CV.Store (next round) — full-strength statement
   kept as `restorerBeforeFix` with its counterexample (`peering_overwrite_counterexample`).
 -/
 import CV.Proofs.Snap
+import CV.Proofs.StoreSnapCex
 namespace CV.Snap
 open CV.Facts.Snap
 
@@ -418,3 +419,111 @@ example :
   decide
 
 end CV.Snap
+
+/-! ## D. the shared store model (CV.Store): snapshot / restore of the real tables
+
+`snapshotS` / `restoreS` (CV/Store/Snap.lean) are the persisters and restorers of the covered tables over the
+shared `State`: nodes with their services and checks through `Restore.Registration` (preserveIndexes), sessions,
+kvs, tombstones, prepared queries, the verbatim index table. -/
+
+namespace CV.Store
+open CV
+
+/-- **Exactly what restore reproduces, and what it does not.** For every state with a well-formed catalog
+    (`CatWF`) and ordered tables with non-empty kv / tombstone keys — no assumption on `sessChecks`, no
+    coverage assumption on the index table — the restore of its snapshot succeeds and
+      * nodes, services, checks, sessions, kvs, tombstones and prepared queries come back row for row, with
+        the same create / modify indexes;
+      * `session_checks` is the table DERIVED from the sessions (whatever the original held);
+      * every row of the original index table is restored verbatim (extra rows can only be rows that the
+        restorers before `IndexRestore` computed under keys the original table did not have);
+      * the leader-local lock-delay map starts empty. -/
+theorem restore_snapshot_store_partial (s : State) (w : CatWF s)
+    (kvS : TSorted KV.pk keyLt s.kvs) (kvKey : ∀ e ∈ s.kvs, e.key ≠ [])
+    (tombS : TSorted Tomb.pk keyLt s.tombs) (tombKey : ∀ t ∈ s.tombs, t.key ≠ [])
+    (sessS : TSorted Sess.pk strLt s.sessions) (pqS : TSorted PQ.pk strLt s.queries)
+    (idxS : IdxSorted s.index) (idxNorm : ∀ r ∈ s.index, lc r.1 = r.1) :
+    ∃ r, restoreS (snapshotS s) = .ok r ∧
+      r.nodes = s.nodes ∧ r.svcs = s.svcs ∧ r.chks = s.chks ∧ r.sessions = s.sessions ∧ r.kvs = s.kvs ∧
+      r.tombs = s.tombs ∧ r.queries = s.queries ∧ r.sessChecks = deriveSC [] s.sessions ∧
+      (∀ x ∈ s.index, x ∈ r.index) ∧ r.loc = {} := by
+  obtain ⟨ix, hix, _, _, e⟩ := restore_eval (K := fun _ => True) w kvKey tombKey
+    ⟨fun _ => ⟨trivial, trivial⟩, fun _ _ => trivial, fun _ => ⟨trivial, trivial, trivial, trivial⟩,
+      fun _ _ => ⟨⟨trivial, trivial, trivial⟩, trivial⟩, fun _ => ⟨trivial, trivial⟩⟩
+    (fun _ => trivial) (fun _ => trivial) (fun _ => trivial) (fun _ => trivial)
+  refine ⟨_, e, rfl, rfl, rfl, tInsertAll_nil strLt_ord sessS, tInsertAll_nil keyLt_ord kvS,
+    tInsertAll_nil keyLt_ord tombS, tInsertAll_nil strLt_ord pqS, rfl, ?_, rfl⟩
+  intro x hx
+  show x ∈ s.index.foldl (fun a r => idxSet a r.1 r.2) ix
+  rw [index_fold_tinsert _ _ idxNorm]
+  exact (mem_tInsertAll strLt_ord s.index hix (tsorted_keys_ne strLt_ord idxS) x).mpr (Or.inl hx)
+
+/-- **Round trip over the shared store model.** For every well-formed state (`SnapWF`: additionally
+    `session_checks` is the derived table and the index table covers, `IdxCovers`, every key the earlier
+    restorers compute) restoring the snapshot gives back exactly the replicated state: every table, every create /
+    modify index, the whole index table. Unbounded. -/
+theorem restore_snapshot_store (s : State) (w : SnapWF s) : restoreS (snapshotS s) = .ok s.repl := by
+  obtain ⟨ix, hix, hks, _, e⟩ := restore_eval (K := HasRow s) w.cat w.kvKey w.tombKey w.idxCover.cat
+    w.idxCover.sessions w.idxCover.kvs w.idxCover.tombs w.idxCover.queries
+  rw [e]
+  have hidx : s.index.foldl (fun a r => idxSet a r.1 r.2) ix = s.index :=
+    index_verbatim w.idxS w.idxNorm hix hks
+  rw [hidx, tInsertAll_nil strLt_ord w.sessS, tInsertAll_nil keyLt_ord w.kvS, tInsertAll_nil keyLt_ord w.tombS,
+    tInsertAll_nil strLt_ord w.pqS, ← w.sc]
+  cases s
+  rfl
+
+/-- **The full-strength round trip is false for the faithful model** — known mechanism
+    `snap:checks:ServiceName:stale-online-copy`. In `SnapCex.stale` (node n1, service id s0 now named "web", check
+    c1 bound to s0 whose row still says "api": what `register s0/api + c1; register s0/web` leaves behind) every
+    `CatWF` clause holds except the last one (`c.svcName = v.name`); the restore succeeds, reproduces nodes and
+    services, and REWRITES the check's service name. -/
+theorem restore_snapshot_store_counterexample :
+    ∃ r, restoreS (snapshotS SnapCex.stale) = .ok r ∧ r.nodes = SnapCex.stale.nodes ∧ r.svcs = SnapCex.stale.svcs ∧
+      r.chks = [{ SnapCex.c1 with svcName := "web" }] ∧ r.chks ≠ SnapCex.stale.chks := by
+  obtain ⟨r, e, hn, hv, hc⟩ := SnapCex.stale_restore
+  refine ⟨r, e, hn, hv, hc, ?_⟩
+  rw [hc]
+  simp [SnapCex.stale, SnapCex.c1]
+
+/-- non-vacuity: a state with a node, a key and the index rows their writes leave is well formed, and the
+    round-trip theorem applies to it -/
+theorem sample_store_round_trip : SnapWF SnapCex.sample ∧ restoreS (snapshotS SnapCex.sample) = .ok SnapCex.sample.repl :=
+  ⟨SnapCex.sample_wf, restore_snapshot_store _ SnapCex.sample_wf⟩
+
+/-- no read path of CV/Store/Query.lean looks at the leader-local lock-delay map -/
+theorem query_ignores_local (s : State) (q : Query) : q.run s.repl = q.run s := by
+  have hrows : ∀ l : List Svc, csnRows s.repl l = csnRows s l := by
+    intro l
+    induction l with
+    | nil => rfl
+    | cons v vs ih =>
+      show (match csnRow s.repl v, csnRows s.repl vs with
+        | some r, some rs => some (r :: rs)
+        | _, _ => none) = _
+      rw [ih]; rfl
+  cases q
+  case csn name =>
+    show (maxIndexForService s.repl name _ true, csnResult s.repl (svcsNamed s.repl name)) = _
+    unfold csnResult
+    rw [hrows]; rfl
+  all_goals rfl
+
+/-- **Cut-point commutation over the shared store model.** Whenever the state at the cut is well formed,
+    the restored server answers the rest of the log with the same results, ends in the same replicated state
+    as the server that took the snapshot (and as the uninterrupted history), and every read of
+    CV/Store/Query.lean — result AND reported index — is the same on both at the cut. Any log, any cut. -/
+theorem cut_commutes_store (init : State) (log : Log) (k : Nat) (w : SnapWF (replay init (log.take k))) :
+    ∃ r, restoreS (snapshotS (replay init (log.take k))) = .ok r ∧
+      replayResults r (log.drop k) = replayResults (replay init (log.take k)) (log.drop k) ∧
+      (replay r (log.drop k)).repl = (replay init log).repl ∧
+      replayResults init log = replayResults init (log.take k) ++ replayResults r (log.drop k) ∧
+      ∀ q : Query, q.run r = q.run (replay init (log.take k)) := by
+  refine ⟨_, restore_snapshot_store _ w, ?_, ?_, ?_, fun q => query_ignores_local _ q⟩
+  · exact (replay_repl_agree' (log.drop k) _ _ (repl_repl _)).2
+  · have h := (replay_repl_agree' (log.drop k) (replay init (log.take k)).repl (replay init (log.take k)) (repl_repl _)).1
+    rw [h, ← replay_append, List.take_append_drop]
+  · have h := (replay_repl_agree' (log.drop k) (replay init (log.take k)).repl (replay init (log.take k)) (repl_repl _)).2
+    rw [h, ← replayResults_append, List.take_append_drop]
+
+end CV.Store
